@@ -258,6 +258,46 @@ def boundary_cases(tier, shard, nshards):
     return out[shard::nshards]
 
 
+def check_pair(case):
+    """two constrained arguments of one class set together (also to the same string)"""
+    dotted = case['cls']
+    cls = method_class(dotted)
+    ok = all(expected_ok(dotted, s, v) for s, v in case['values'].items())
+    for via in ('ctor', 'marshal'):
+        if via == 'ctor':
+            got = raises_value_error(lambda: cls(**case['values']))
+        else:
+            obj = cls(**base_args(dotted))
+            for s, v in case['values'].items():
+                setattr(obj, s, v)
+            got = raises_value_error(lambda: frame.marshal(obj, 1))
+        if got != (not ok):
+            raise Violation('%s:pair:%s' % ('accepts-invalid' if not ok else
+                                            'rejects-valid', via),
+                            '%s(%s) via %s: ValueError %s, but the values are %s' %
+                            (dotted, canon.short(case['values'], 120), via,
+                             'raised' if got else 'not raised',
+                             'valid' if ok else 'invalid'))
+    return ['accept' if ok else 'reject']
+
+
+def pair_cases(tier, shard, nshards):
+    by_class = {}
+    for c, s, kind, limit in NAME_SLOTS:
+        by_class.setdefault(c, []).append((s, kind, limit))
+    lengths = (0, 1, 126, 127, 128, 129, 200, 255, 256, 257)
+    out = []
+    for c, slots in by_class.items():
+        for i in range(len(slots)):
+            for j in range(i + 1, len(slots)):
+                for la in lengths:
+                    for lb in lengths:
+                        for fa, fb in (('a', 'a'), ('a', 'b'), ('a', '*')):
+                            out.append({'cls': c, 'values': {slots[i][0]: fa * la,
+                                                             slots[j][0]: fb * lb}})
+    return out[shard::nshards]
+
+
 def ticket_bulk(tier, shard, nshards, rec):
     n = 0
     for dotted in spec_table.TICKET_CLASSES:
@@ -378,6 +418,10 @@ COMPONENTS = [
               exhaustive=True, shards={'quick': 8, 'thorough': 8},
               describe='length limits, edge characters, fixed deprecated values, '
                        'delivery modes, None; both paths'),
+    Component('pairs', check_pair, cases=pair_cases, distinct_by_construction=True,
+              exhaustive=True, shards={'quick': 8, 'thorough': 8},
+              describe='classes with two name-constrained arguments: both set together, '
+                       '10 x 10 boundary lengths, equal and different strings'),
     Component('tickets', check, bulk=ticket_bulk, distinct_by_construction=True,
               exhaustive=True,
               describe='ticket 0..65535 x 12 classes x both paths'),
